@@ -388,6 +388,10 @@ Definition apply_dop (alias : bool) (w : world) (o : dop) : res world :=
   | DMod j m => apply_mod w j m
   end.
 
+(** the system a derivation modifies in place, if any (clone and reform only append) *)
+Definition target_of (o : dop) : option nat :=
+  match o with DMod j _ => Some j | _ => None end.
+
 (** a derivation that raises leaves the world as it was *)
 Definition do_dop (alias : bool) (w : world) (o : dop) : world :=
   match apply_dop alias w o with Ok w' => w' | Err _ => w end.
